@@ -95,6 +95,7 @@ OPS = st.one_of(
     st.tuples(st.just("drop"), st.sampled_from(["fin", "reset"])).map(list),
     st.tuples(st.just("dropold"), st.sampled_from(["fin", "reset"])).map(list),
     st.just(["close"]), st.just(["shutdown"]), st.just(["stall"]),
+    st.tuples(st.just("shutdown"), st.just("racing"), st.sampled_from(["call", "open", "sub", "zc"])).map(list),
     st.tuples(st.just("garble"), st.sampled_from(["text", "bytes"])).map(list),
 )
 
